@@ -16,7 +16,7 @@ import (
 
 var profile = gen.Profile{
 	MinSteps: 3, MaxSteps: 24, Limits: []int{32},
-	PNote: 25, PGate: 70, PInvalid: 14, PUnknown: 10, PBatch: 45, MaxBatch: 5,
+	PNote: 25, PGate: 70, PInvalid: 14, PUnknown: 10, PBatch: 45, MaxBatch: 5, PTopInvalid: 4,
 	PBurst: 35, Builtins: true, Pins: true,
 	Outcomes:      []string{"ok", "ok", "err:-32000", "err:7", "bad", "baderr", "err:-32600", "err:-32700"},
 	Chans:         []string{"direct", "pipe", "fragile"},
